@@ -82,6 +82,10 @@ class Gen:
             return "E" + str(rng.choice(elems))
         return "E79"
 
+    def mark(self, op):
+        """spell out every optional argument as its documented default, or omit it"""
+        return op + [self.rng.choice(["+spelled", "+omitted"])]
+
     def stale_atoms(self):
         """atoms that were in the molecule earlier in this history and are not now"""
         mem = set(self.members())
@@ -114,7 +118,20 @@ class Gen:
         kind = rng.weighted([("add", 10), ("new", 8), ("del", 24), ("con", 10), ("bond", 16), ("bonds", 4),
                              ("delb", 8), ("rmsub", 6), ("addh", 5), ("addbad", 3), ("readd", 4),
                              ("mkview", 7 if n else 0), ("vread", 9 if nv else 0), ("vwrite", 8 if nv else 0),
-                             ("pair", 8 if n else 0), ("rebond", 9 if self.r.bond_objs else 0), ("newbonds", 8)])
+                             ("pair", 8 if n else 0), ("rebond", 9 if self.r.bond_objs else 0), ("newbonds", 8), ("vedit", 9 if nv else 0)])
+        if kind == "vedit":
+            k = max(0, nv - 1 - rng.below(min(nv, 3)))
+            v = self.r.views[k][0]
+            opts = ["append-foreign", "addatom", "addh"]
+            if len(v.atoms):
+                opts += ["append-new", "connect", "delatom", "append-new"]
+            if len(v.bonds):
+                opts += ["delbond-own", "delbond-own", "delbond-own"]
+            if mol.n_bonds:
+                opts += ["append-parentbond", "append-parentbond"]
+            if any(not any(b is x for x in v.bonds) for b in mol.bonds):
+                opts += ["delbond-parent"]
+            return ["vedit", k, rng.choice(opts), rng.below(1000)]
         if kind == "newbonds":
             k = rng.range(1, 3)
             own = rng.choice([None, None, "other"])
@@ -185,17 +202,20 @@ class Gen:
             return seq[0]
         if kind == "add":
             q = None if rng.below(2) == 0 or self.r.kind == "s" else 0.01 * (self.c + 1)
-            return ["add", self.fresh_ext(), rng.choice([1, 6, 7, 8, 16]), rng.choice([None, f"A{self.ext}", "DUP"]),
-                    self.fresh_xyz(), q]
+            return self.mark(["add", self.fresh_ext(), rng.choice([1, 6, 7, 8, 16]), rng.choice([None, f"A{self.ext}", "DUP"]),
+                              self.fresh_xyz(), q])
         if kind == "readd":
             pool = (self.stale_atoms() or self.nonmembers()) if rng.below(100) < 75 else self.members()
             if not pool:
                 return self.op()
-            return ["readd", rng.choice(pool), self.fresh_xyz(), None]
+            return self.mark(["readd", rng.choice(pool), self.fresh_xyz(), None])
         if kind == "addbad":
-            return ["addbad", self.fresh_ext(), 6, None]
+            from harness.moledit import BAD_SHAPES
+            if rng.below(100) < 35:
+                return ["newbad", rng.choice([1, 6, 8]), rng.choice(BAD_SHAPES)]
+            return self.mark(["addbad", self.fresh_ext(), 6, None, rng.choice(BAD_SHAPES)])
         if kind == "new":
-            return ["new", rng.choice([1, 6, 7, 8]), rng.choice([None, f"N{self.c}", "DUP"]), self.fresh_xyz()]
+            return self.mark(["new", rng.choice([1, 6, 7, 8]), rng.choice([None, f"N{self.c}", "DUP"]), self.fresh_xyz()])
         if kind == "del":
             return ["del", self.ref()]
         if kind == "con":
@@ -203,7 +223,7 @@ class Gen:
                 b = rng.choice(mol.bonds)
                 x, y = self.r.atom_ids[id(b.a1)], self.r.atom_ids[id(b.a2)]
                 return ["con", "@" + y, "@" + x] if rng.below(2) else ["con", "@" + x, "@" + y]
-            return ["con", self.ref(92), self.ref(92)]
+            return self.mark(["con", self.ref(92), self.ref(92)])
         if kind == "bond":
             shape = rng.weighted([("mf", 50), ("mm", 22), ("ff", 12), ("same", 6), ("fm", 10)])
             if shape == "mf":
@@ -247,9 +267,9 @@ class Gen:
             r2 = "@" + self.r.atom_ids[id(a2)]
             if rng.below(100) < 15:
                 r2 = "#" + str(mol.atoms.index(a2))
-            return ["rmsub", r1, r2, rng.choice([None, "AP"])]
+            return self.mark(["rmsub", r1, r2, rng.choice([None, "AP"])])
         if kind == "addh":
-            heavy = [self.r.atom_ids[id(a)] for a in mol.atoms if int(a.element) in (6, 7, 8)]
+            heavy = [self.r.atom_ids[id(a)] for a in mol.atoms if int(a.element) in (6, 7, 8) and id(a) in self.r.atom_ids]
             if not heavy:
                 return self.op()
             k = rng.range(1, 2)
@@ -385,7 +405,8 @@ def ens_history(ctx, case_seed):
     for step in range(rng.range(4, 14)):
         nconf = len(ref_c)
         op = rng.weighted([("hold", 4), ("append", 3), ("extend", 2), ("translate", 2), ("scale", 1), ("c.assign", 3),
-                           ("c.translate", 3), ("c.charges", 2), ("e.assign", 1)])
+                           ("c.translate", 3), ("c.charges", 2), ("e.assign", 1),
+                           ("c.connect", 2), ("c.append_bond", 2), ("c.del_bond", 2), ("c.add_atom", 1), ("c.del_atom", 1)])
         ops.append(op)
         try:
             with warnings.catch_warnings():
@@ -423,6 +444,26 @@ def ens_history(ctx, case_seed):
                     elif op == "c.translate":
                         v = np.array([0.5, 0.25, -1.0]); cf.translate(v)
                         ref_c[i] = ref_c[i] + v
+                    elif op in ("c.connect", "c.append_bond", "c.del_bond", "c.add_atom", "c.del_atom"):
+                        # edits of the atom / bond lists THROUGH a conformer: bonds are the ensemble's (a live list), atoms cannot be
+                        # added or deleted through one conformer; the ensemble must stay a well-formed parent either way
+                        before = (list(ens.atoms), list(ens.bonds))
+                        try:
+                            if op == "c.connect":
+                                cf.connect(0, n - 1)
+                            elif op == "c.append_bond":
+                                cf.append_bond(ml.Bond(cf.atoms[0], cf.atoms[rng.below(n)]))
+                            elif op == "c.del_bond":
+                                if len(cf.bonds):
+                                    cf.del_bond(cf.bonds[rng.below(len(cf.bonds))])
+                            elif op == "c.add_atom":
+                                cf.add_atom(ml.Atom("H"), [0.0, 0.0, 0.0])
+                            else:
+                                cf.del_atom(0)
+                        except Exception:
+                            if [id(a) for a in ens.atoms] != [id(a) for a in before[0]] or [id(b) for b in ens.bonds] != [id(b) for b in before[1]]:
+                                viol.append(("C05:refused-view-edit-changed-parent", f"{op} through a Conformer raised but changed the ensemble [ops {ops}]"))
+                                break
                     else:
                         q = np.array([0.0625 * step + a for a in range(n)])
                         cf.atomic_charges = q
@@ -442,6 +483,16 @@ def ens_history(ctx, case_seed):
                         bad = f"conformer {i}: partial charges are not those it was given"
                 except Exception as e:
                     bad = f"conformer {i}: reading through the kept view raised {type(e).__name__}"
+        if bad is None:
+            # the ensemble itself: every atom and bond names the ensemble as parent and knows its index, bonds join its atoms
+            for j, a in enumerate(ens.atoms):
+                if a.parent is not ens or a.idx != j:
+                    bad = f"atom {j} of the ensemble names {type(a.parent).__name__} as parent / index {a.idx if a.parent is not None else None}"
+            for j, b in enumerate(ens.bonds):
+                if b.parent is not ens or ens.index_bond(b) != j or not any(b.a1 is a for a in ens.atoms) or not any(b.a2 is a for a in ens.atoms):
+                    bad = f"bond {j} of the ensemble names {type(b.parent).__name__} as parent, or has a wrong index / a foreign end"
+            if ens.n_atoms != n:
+                bad = f"the ensemble has {ens.n_atoms} atoms, its arrays are for {n}"
         if bad is None and (ens.coords.shape != (len(ref_c), n, 3) or ens.atomic_charges.shape != (len(ref_c), n)):
             bad = f"ensemble arrays have shapes {ens.coords.shape} / {ens.atomic_charges.shape} for {len(ref_c)} conformers of {n} atoms"
         if bad:
@@ -479,7 +530,7 @@ def compare(ctx, res, mline):
             diff.append("X")
         # add_implicit_hydrogens: whether the routine raises is decided by property C16; the model op
         # takes the hydrogens that were in fact added, so only the state is compared for it
-        if out != mout and not (i > 0 and res["ops"][i - 1][0] == "addh"):
+        if out != mout and not (i > 0 and res["ops"][i - 1][0] in ("addh", "vedit")):
             diff.append("out")
         if diff:
             ctx.disagree(f"state after step {i - 1} differs in {diff}", {**tag, "step": i - 1, "op": res["ops"][i - 1] if i else None},
